@@ -2,7 +2,7 @@
    Theorems about the interleaving model (theories/Conc/Interleave.v).  PARTIAL: CPython's scheduler, the
    RLock implementation and SQLite's own locking are trusted; the model's micro-operations are tied to the code by
    the lock-set discipline check and the scheduled runs of harness/c10.py; see notes/C10.md. *)
-From PK Require Import Conc.Interleave Conc.InterleaveProofs.
+From PK Require Import Conc.Interleave Conc.InterleaveProofs Conc.InterleaveMore.
 From Coq Require Import ZArith List Bool.
 Import ListNotations.
 Open Scope Z_scope.
@@ -30,6 +30,31 @@ Theorem c10_identity_never_crossed : forall cred sched s0 s t r its it,
   In (t, r, its) (log s) -> In it its -> who_ok (cred t) it /\ ver_ok (r_ver r) it.
 Proof. exact identity_never_crossed. Qed.
 Print Assumptions c10_identity_never_crossed.
+
+(* AT EVERY MOMENT of every schedule (clients that never finish, a server stopped half-way): the responses handed
+   back so far are a prefix of the one-at-a-time responses in entry order, at most one response is outstanding, and
+   whenever nobody is inside process_request the shared state IS the one-at-a-time state *)
+Theorem c10_locked_prefix_serializable : forall cred sched s0 s,
+  initial s0 -> run cred true sched s0 = Some s ->
+  exists tail, snd (seq_run cred (hist s) (sh s0, [])) = (log s ++ tail)%list /\ (List.length tail <= 1)%nat /\
+               (lock s = None -> tail = [] /\ fst (seq_run cred (hist s) (sh s0, [])) = sh s).
+Proof. exact locked_prefix_serializable. Qed.
+Print Assumptions c10_locked_prefix_serializable.
+
+(* the lock is never left behind: whoever holds it is inside process_request *)
+Theorem c10_lock_never_left_behind : forall cred sched s0 s t,
+  initial s0 -> run cred true sched s0 = Some s -> lock s = Some t -> running (thr s t) <> None.
+Proof. exact lock_never_left_behind. Qed.
+Print Assumptions c10_lock_never_left_behind.
+
+(* "as if served one at a time" includes being served: under the lock no reachable state is stuck while a client
+   still has a request queued or in progress *)
+Theorem c10_locked_no_deadlock : forall cred sched s0 s t,
+  initial s0 -> run cred true sched s0 = Some s ->
+  (queue (thr s t) <> [] \/ running (thr s t) <> None) ->
+  exists t', step cred true t' s <> None.
+Proof. exact locked_no_deadlock. Qed.
+Print Assumptions c10_locked_no_deadlock.
 
 (* non-vacuity, and what the lock is for: with @_synchronize removed a two-client schedule hands bob (credential 2020) the
    key of alice (user 101, credential 1010): his Get is evaluated under her identity *)
@@ -61,3 +86,12 @@ Qed.
 
 Example ex_initial : initial (init wit_store wit_queues).
 Proof. repeat split. Qed.
+
+(* a reachable state in the middle of a request: bob holds the lock, alice is queued; the hypotheses of the three
+   moment-wise theorems are met by a state that is not final *)
+Example ex_midway :
+  exists s, run cred2 true (repeat 1%nat 5) (init wit_store wit_queues) = Some s /\
+            lock s = Some 1%nat /\ running (thr s 1%nat) <> None /\ queue (thr s 0%nat) <> [] /\ log s = [].
+Proof.
+  eexists. split; [vm_compute; reflexivity|]. vm_compute. repeat split; discriminate.
+Qed.
